@@ -4,7 +4,23 @@ import json, sys
 
 ALL = ["C%02d" % i for i in range(1, 21)]
 
+WRAP_NOTE = "Shaped runs are synthetic (generator asserts the shaper output contract); break opportunities come from the segmenter (C06). Negative letter spacing is checked for conservation only (measure not monotone)."
 CHECKS = {
+ "C02": dict(
+   level="exploration",
+   text="All paragraphs up to the tier's length over a 9-symbol line-breaking alphabet x all run splits, direction vectors and cluster structures x all critical widths x policies, with truncation, trimming, spacing, iterator and driver axes crossed one at a time; every returned line is checked for coverage, glyph identity (unique ids), cluster integrity and advance = sum of glyph advances.",
+   note=WRAP_NOTE, technique="bounded exhaustive enumeration of inputs and configurations against conservation laws (small-scope model checking, E1)",
+   design="1/C02 + Appendix A", engine="E1 enum"),
+ "C03": dict(
+   level="exploration",
+   text="Same enumeration as C02; every line end is compared with the permitted break set (UAX#14 opportunities, grapheme boundaries per policy, cluster starts), mandatory breaks, and the WhenNecessary 'word fits by itself' rule.",
+   note=WRAP_NOTE, technique="bounded exhaustive enumeration of inputs and configurations against a reference break-set model (E1)",
+   design="1/C03 + Appendix A", engine="E1 enum"),
+ "C04": dict(
+   level="exploration",
+   text="Same enumeration as C02; independent reference measure (two readings of 'trailing at the line end') decides width bound, greedy maximality against the next permitted break, line count, truncator presence/range and the reduced width of the truncated line.",
+   note=WRAP_NOTE, technique="bounded exhaustive enumeration of inputs and configurations against a reference measure (E1)",
+   design="1/C04 + Appendix A", engine="E1 enum"),
  "C19": dict(
    level="exploration",
    text="Bounded-exhaustive enumeration of table lists (all length vectors over 0..9 for up to 4 tables, cyclic lengths covering every residue mod 4 for 5..40 tables, 4 byte patterns, 4 spare-capacity settings aliasing a shared backing array, 3 tag layouts) plus every corpus face rewritten; each output is decoded by an independent directory reader and by the library's loader.",
